@@ -92,6 +92,46 @@ func holds(s uint8, i uint16) (bool, string) {
 	return true, ""
 }
 
+func concurrentStrings(out *Out, seed uint64) {
+	const workers, rounds = 8, 40000
+	type bad struct{ s, i int64 }
+	res := make(chan bad, workers)
+	for w := 0; w < workers; w++ {
+		go func(w int) {
+			r := NewRng(seed + uint64(w))
+			first := bad{-1, -1}
+			for k := 0; k < rounds; k++ {
+				// ids that collide in small tables: equal low bytes / equal xor-folds
+				// all workers print the same small families (same service, same low instance
+				// byte, varying high byte; and same instance, varying service)
+				s := uint8(7)
+				i := uint16(r.Intn(16))<<8 | 0x42
+				if k%5 == 1 {
+					s, i = uint8(r.Intn(16)*16+3), 0x1234
+				}
+				if k%5 == 0 {
+					s, i = uint8(r.Intn(256)), uint16(r.Intn(65536))
+				}
+				id := fatchoy.MakeNodeID(s, i)
+				str := id.String()
+				var parsed fatchoy.NodeID
+				p, _ := Catch(func() { parsed = fatchoy.MustParseNodeID(str) })
+				if (p || parsed != id) && first.s < 0 {
+					first = bad{int64(s), int64(i)}
+				}
+			}
+			res <- first
+		}(w)
+	}
+	for w := 0; w < workers; w++ {
+		b := <-res
+		out.GoChecked += rounds
+		if b.s >= 0 {
+			out.Violation("C20/concurrent-print", "printed form of an id printed concurrently with other ids does not parse back to it", Ints(b.s, b.i))
+		}
+	}
+}
+
 func main() {
 	log.SetOutput(io.Discard)
 	Main(run, gen)
@@ -168,6 +208,10 @@ func gen(a Args, out *Out) {
 			}
 		}
 	}
+	// concurrent printing: NodeID values are plain integers, so String() on different ids
+	// from different goroutines is ordinary use; every printed form must be the id's own
+	// (a cache or shared buffer inside String() shows only here)
+	concurrentStrings(out, rng.Next())
 	if step == 1 {
 		out.Note("exhaustive Go-side sweep of all 2^24 (service, instance) pairs")
 	}
